@@ -43,8 +43,23 @@ ALIASES = ['VZA', 'VZB', 'VZC', 'VZD']
 OPNAMES = ['OP_TRUE', 'OP_FALSE', 'OP_NOT_AN_OP']      # index 2 is not a known op
 
 
+def enum_histories(maxlen):
+    """bounded-exhaustive part of the quantifier: every call sequence up to maxlen over {add, remove, reset} x 3 plugins x 2 scopes,
+    {add, remove} x 2 contracts, x 2 interfaces, add x 2 aliases (run and compile follow every history)"""
+    import itertools
+    alpha = [('ap', s_, p_) for s_ in (0, 1) for p_ in (0, 1, 2)] + [('rp', s_, p_) for s_ in (0, 1) for p_ in (0, 1, 2)] + \
+            [('rs', 0), ('rs', 1), ('ac', 0, 0), ('ac', 1, 1), ('rc', 0), ('rc', 1), ('ai', 2), ('ai', 3), ('ri', 2), ('ri', 0), ('aa', 0, 0), ('aa', 1, 1)]
+    out = []
+    for L in range(1, maxlen + 1):
+        out += [list(t) for t in itertools.product(alpha, repeat=L)]
+    return out
+
+
 def reg_task(task):
     seed, n = task
+    given = None
+    if isinstance(n, list):         # an explicit list of histories (bounded-exhaustive enumeration)
+        given, n = n, len(n)
     _init()
     rng = random.Random(seed)
     model = tsh.Model()
@@ -97,8 +112,8 @@ def reg_task(task):
     try:
         for it in range(n):
             reset()
-            L = rng.randint(1, 14)
-            ops = []
+            L = rng.randint(1, 14) if given is None else 0
+            ops = [] if given is None else list(given[it])
             for _ in range(L):
                 c = rng.random()
                 if c < 0.3: ops.append(('ap', rng.randrange(3), rng.randrange(3)))
